@@ -28,11 +28,13 @@ Definition thread_eqb (x y : thread) : bool :=
   end.
 
 (* callback kinds of C21 *)
-Inductive kind := KStart | KOnMessage | KPause | KPeriodic | KDiscCb.
+Inductive kind := KStart | KOnMessage | KPause | KPeriodic | KDiscCb
+                | KHandler.   (* a message-handler method of a management computation: AgentsMgt._on_* /
+                                 _orchestrator_*, OrchestrationComputation._on_* (reached from on_message) *)
 Definition kind_eqb (x y : kind) : bool :=
   match x, y with
   | KStart, KStart | KOnMessage, KOnMessage | KPause, KPause | KPeriodic, KPeriodic
-  | KDiscCb, KDiscCb => true
+  | KDiscCb, KDiscCb | KHandler, KHandler => true
   | _, _ => false
   end.
 Definition kmem (k : kind) (l : list kind) : bool := existsb (kind_eqb k) l.
@@ -51,7 +53,10 @@ Inductive api :=
                           discovery callbacks INLINE *)
 | ApiRemoveComputation (* Agent.remove_computation: comp.stop(), unregister: callbacks INLINE *)
 | ApiOrchStart | ApiOrchDeploy | ApiOrchStartReplication | ApiOrchRun | ApiOrchStopAgents
-| ApiOrchStop | ApiOrchMgtMethod | ApiOrchOnTimeout | ApiOrchProcessEvent.
+| ApiOrchStop | ApiOrchMgtMethod | ApiOrchOnTimeout | ApiOrchProcessEvent
+| ApiOrchRead          (* end_metrics / current_solution / current_global_cost / replication_metrics:
+                          read the management computation's tables on the caller's thread, no handler *)
+| ApiOrchWaitReady.    (* wait_ready: waits on an Event *)
 
 (* Orchestrator methods in terms of the agent-level entry points they call on the
    orchestrator's own agent (orchestrator.py) *)
@@ -106,8 +111,8 @@ Inductive root :=
 Definition root_kinds (r : root) : list kind :=
   match r with
   | RLoopOnStart => [KStart; KDiscCb]
-  | RLoopMgt m => KOnMessage :: KDiscCb :: flat_map inline_kinds (mgt_handler m)
-  | RLoopMsg => [KOnMessage; KDiscCb; KStart; KPause]
+  | RLoopMgt m => KOnMessage :: KHandler :: KDiscCb :: flat_map inline_kinds (mgt_handler m)
+  | RLoopMsg => [KOnMessage; KHandler; KDiscCb; KStart; KPause]
       (* algorithm / discovery / replication handlers: discovery callbacks; a finished repair
          computation makes ResilientAgent start + pause the re-hosted computation, add and
          remove computations *)
